@@ -447,12 +447,20 @@ func lenDescSeen(fn *ssa.Function, v ssa.Value, seen map[ssa.Value]bool) string 
 				}
 			} else if x.Call.IsInvoke() {
 				descs["delegate"] = true
+			} else if callee := x.Call.StaticCallee(); callee != nil && callee.Blocks != nil && callee.Pkg == fn.Pkg {
+				for _, d := range calleeLenDescs(callee, 0, seen) {
+					descs[d] = true
+				}
 			} else {
 				descs["call"] = true
 			}
 		case *ssa.Extract:
 			if c, ok := x.Tuple.(*ssa.Call); ok && c.Call.IsInvoke() {
 				descs["delegate"] = true
+			} else if c, ok := x.Tuple.(*ssa.Call); ok && c.Call.StaticCallee() != nil && c.Call.StaticCallee().Blocks != nil && c.Call.StaticCallee().Pkg == fn.Pkg {
+				for _, d := range calleeLenDescs(c.Call.StaticCallee(), x.Index, seen) {
+					descs[d] = true
+				}
 			} else {
 				descs["?"] = true
 			}
@@ -462,6 +470,23 @@ func lenDescSeen(fn *ssa.Function, v ssa.Value, seen map[ssa.Value]bool) string 
 	}
 	delete(descs, "nil")
 	return strings.Join(sortedKeys(descs), "|")
+}
+
+// calleeLenDescs: length descriptions of result #idx of a same-package helper
+func calleeLenDescs(callee *ssa.Function, idx int, seen map[ssa.Value]bool) []string {
+	set := map[string]bool{}
+	eachInstr(callee, func(in ssa.Instruction) {
+		ret, ok := in.(*ssa.Return)
+		if !ok || idx >= len(ret.Results) {
+			return
+		}
+		if d := lenDescSeen(callee, ret.Results[idx], seen); d != "" {
+			for _, x := range strings.Split(d, "|") {
+				set[x] = true
+			}
+		}
+	})
+	return sortedKeys(set)
 }
 
 func loopDepthOf(b *ssa.BasicBlock) int {
@@ -604,8 +629,9 @@ func c10Rows(p *Prog, r *Report) {
 	}
 	// the peers loop ranges over proxy.nodes and skips exactly the local node
 	skipOK, countOK := false, false
-	eachInstr(fn, func(in ssa.Instruction) {
-		if bo, ok := in.(*ssa.BinOp); ok && bo.Op == token.NEQ {
+	for _, sf := range withCallees(p, fn, 2) {
+	eachInstr(sf, func(in ssa.Instruction) {
+		if bo, ok := in.(*ssa.BinOp); ok && (bo.Op == token.NEQ || bo.Op == token.EQL) {
 			fx, _ := loadedField(bo.Y)
 			if fx == localF {
 				// the other side is an element of nodes
@@ -628,6 +654,7 @@ func c10Rows(p *Prog, r *Report) {
 			}
 		}
 	})
+	}
 	if !skipOK {
 		bad = append(bad, "the peers rows are not `every node except the local node`")
 	}
@@ -759,29 +786,51 @@ func c10Tokens(p *Prog, r *Report) {
 	px := p.Named("proxy", "Proxy")
 	bn := p.methodOf(px, "buildNodes")
 	tokF := p.Field("proxy", "node", "tokens")
-	// the assignment: a store to node.tokens inside a loop (after construction)
-	var assignStores []*ssa.Store
-	eachInstr(bn, func(in ssa.Instruction) {
-		st, ok := in.(*ssa.Store)
-		if !ok {
-			return
-		}
-		fa, ok := st.Addr.(*ssa.FieldAddr)
-		if !ok || fieldOfAddr(fa) != tokF {
-			return
-		}
-		if _, fresh := fa.X.(*ssa.Alloc); fresh {
-			return
-		}
-		assignStores = append(assignStores, st)
-	})
-	if len(assignStores) == 0 {
+	// the assignment: a store to node.tokens of an existing node, directly in buildNodes or in a
+	// helper it calls; the "event" is entering the guarded region (direct) or the call (helper)
+	hasTokenStore := func(fn *ssa.Function) []*ssa.Store {
+		var out []*ssa.Store
+		eachInstr(fn, func(in ssa.Instruction) {
+			st, ok := in.(*ssa.Store)
+			if !ok {
+				return
+			}
+			fa, ok := st.Addr.(*ssa.FieldAddr)
+			if !ok || fieldOfAddr(fa) != tokF {
+				return
+			}
+			if _, fresh := fa.X.(*ssa.Alloc); fresh {
+				return
+			}
+			out = append(out, st)
+		})
+		return out
+	}
+	var eventInstr ssa.Instruction
+	var eventBlk *ssa.BasicBlock
+	if direct := hasTokenStore(bn); len(direct) > 0 {
+		eventBlk = direct[0].Block()
+	} else {
+		eachCall(bn, func(c ssa.CallInstruction) {
+			callee := c.Common().StaticCallee()
+			if callee == nil || !p.InRepo(callee) {
+				return
+			}
+			for _, f := range withCallees(p, callee, 1) {
+				if len(hasTokenStore(f)) > 0 {
+					eventInstr = c.(ssa.Instruction)
+					eventBlk = c.Block()
+				}
+			}
+		})
+	}
+	if eventBlk == nil {
 		r.bad(rule, "Proxy.buildNodes", p.Pos(bn.Pos()), "no token assignment over the node list")
 		return
 	}
 	// the bool flag guarding it (calculateTokens): a bool phi among the dominating conditions
 	var flag ssa.Value
-	for _, ct := range dominatingConds(assignStores[0].Block()) {
+	for _, ct := range dominatingConds(eventBlk) {
 		if phi, ok := ct.Cond.(*ssa.Phi); ok && ct.Truth {
 			if b, ok := phi.Type().Underlying().(*types.Basic); ok && b.Kind() == types.Bool {
 				flag = phi
@@ -792,27 +841,27 @@ func c10Tokens(p *Prog, r *Report) {
 		r.bad(rule, "Proxy.buildNodes", p.Pos(bn.Pos()), "the token assignment is not conditional on tokens being calculated")
 		return
 	}
-	// the region guarded by (tokens are calculated && more than one node)
-	var thenBlk *ssa.BasicBlock
-	for _, b := range bn.Blocks {
-		if len(b.Preds) == 1 && b.Dominates(assignStores[0].Block()) {
-			if ifi, ok := lastIf(b.Preds[0]); ok && b.Preds[0].Succs[0] == b {
-				if bo, ok := ifi.Cond.(*ssa.BinOp); ok && lenArg(bo.X) != nil {
-					thenBlk = b
+	if eventInstr == nil {
+		// the region guarded by (tokens are calculated && more than one node)
+		for _, b := range bn.Blocks {
+			if eventInstr == nil && len(b.Preds) == 1 && b.Dominates(eventBlk) && loopDepthOf(b.Preds[0]) == 0 {
+				if ifi, ok := lastIf(b.Preds[0]); ok && b.Preds[0].Succs[0] == b {
+					if bo, ok := ifi.Cond.(*ssa.BinOp); ok && (lenArg(bo.X) != nil || lenArg(bo.Y) != nil) {
+						eventInstr = b.Instrs[0]
+					}
 				}
 			}
 		}
-	}
-	if thenBlk == nil {
-		r.bad(rule, "Proxy.buildNodes", p.Pos(bn.Pos()), "the token assignment is not guarded by the number of nodes in the ring")
-		return
+		if eventInstr == nil {
+			eventInstr = eventBlk.Instrs[0]
+		}
 	}
 	nodeT := p.Named("proxy", "node")
 	s := newSim(p)
 	s.TrackLens = true
 	s.Pinned[flag] = true
 	s.OnInstr = func(st *State, in ssa.Instruction) {
-		if in == thenBlk.Instrs[0] {
+		if in == eventInstr {
 			st.aux["assigned"] = "1"
 		}
 		switch x := in.(type) {
